@@ -851,6 +851,24 @@ def tecmp_samples(rng):
     out.append(tecmp_hdr(rng.below(256), 1, 0, n) + rng.bytes(n))
     return out
 
+def tecmp_consistent_truncations(rng):
+    """TECMP status messages cut at every length below their fixed part, with the inner vendor-data-length word REWRITTEN so that it is
+    consistent with the bytes that are present (length - 12 and neighbours, 0, the usual 24): a lenient validator that trusts the inner
+    length accepts exactly these. None of them is a complete message: no packet, no read behind the buffer."""
+    out = []
+    for mt, fixed in ((1, 36), (2, 24)):
+        tmpl = bytearray(rng.bytes(fixed + 12))
+        for n in range(0, fixed):
+            if mt == 2 and n >= 12:
+                # a bus status with its generic part complete and less than one entry: also no packet
+                pass
+            for v in sorted(set([max(0, n - 12), max(0, n - 11), max(0, n - 13), 0, 24, 5, 6])):
+                b = bytearray(tmpl[:n])
+                if n >= 6:
+                    b[4:6] = be(v, 2)
+                out.append(tecmp_hdr(rng.below(256), mt, 0, n) + bytes(b))
+    return out
+
 def mutate(rng, f):
     f = bytearray(f)
     k = rng.below(6)
